@@ -36,6 +36,7 @@ vars == <<l, run, ct, its, skip, diag>>
 NoCt == [none |-> TRUE]
 
 Init == /\ l = 1 /\ run = 0 /\ ct = NoCt /\ its = <<>> /\ skip = TRUE /\ diag = {}
+        /\ TLCSet(42, [group |-> 0, load |-> "", items |-> <<>>, whole |-> FALSE])
 
 -----------------------------------------------------------------------------
 \* Helpers on logged records
@@ -58,6 +59,14 @@ ChangedSound(c, inputs, lastIn) ==
 \* the X/Z rules
 AnswerValue(outs, name) ==
   LET n == FirstPos(outs, name, 1) IN IF n = 0 THEN VX ELSE outs[n].v
+
+\* C13's clause: a value the driver reported for a DIFFERENT signal shows up under this one
+Misattributed(c, outputs, outs) ==
+  \E k \in DOMAIN outputs :
+     LET sg == c.signals[c.expIdx[k].sig]
+     IN  /\ sg.dir # "virt"
+         /\ outputs[k].out # AnswerValue(outs, outputs[k].s)
+         /\ \E j \in DOMAIN outs : outs[j].s # outputs[k].s /\ outs[j].v = outputs[k].out
 
 AttrOutputs(c, outputs, outs) ==
   \A k \in DOMAIN outputs :
@@ -161,7 +170,8 @@ CompareRow(e, c, ret, r) ==
       ELSE IF Len(o.outputs) # Len(p.outputs) THEN "row.outputs.len"
       ELSE IF \E k \in DOMAIN p.outputs : o.outputs[k].s # p.outputs[k].s THEN "row.outputs.sig"
       ELSE IF \E k \in DOMAIN p.outputs : o.outputs[k].exp # p.outputs[k].exp THEN "row.expected"
-      ELSE IF ~AttrOutputs(ct, o.outputs, r.answer.outs) THEN "attr.output"
+      ELSE IF ~AttrOutputs(ct, o.outputs, r.answer.outs)
+           THEN (IF Misattributed(ct, o.outputs, r.answer.outs) THEN "attr.mis" ELSE "attr.output")
       ELSE IF \E k \in DOMAIN p.outputs : o.outputs[k].out # p.outputs[k].out THEN "row.output"
       ELSE IF ~AttrVerdicts(o) THEN "attr.verdict"
       ELSE IF VarsSet(r.vars) # Vars(ret.it) THEN "vars"
@@ -264,7 +274,7 @@ NextLine(r) ==
                   IN  IF code # "ok" THEN FlagT(code)
                       ELSE /\ its' = [its EXCEPT ![r.it].it = ret.it,
                                                  ![r.it].lastIn = r.item.inputs, ![r.it].rng = rf.st,
-                                                 ![r.it].dyn = Append(@, [k |-> "row", line |-> r.item.line, inputs |-> r.item.inputs,
+                                                 ![r.it].dyn = Append(@, [k |-> "row", line |-> r.item.line, off |-> r.item.line - ret.item.line, inputs |-> r.item.inputs,
                                                      exp |-> [n \in DOMAIN r.item.outputs |-> [s |-> r.item.outputs[n].s, v |-> r.item.outputs[n].exp]]])]
                            /\ UNCHANGED <<run, ct, skip, diag>>
 
@@ -316,12 +326,36 @@ NextStaticLine(r) ==
            ELSE /\ its' = [its EXCEPT ![r.it].it = ret.it, ![r.it].dyn = Append(@, [k |-> "row"])]
                 /\ UNCHANGED <<run, ct, skip, diag>>
 
+\* ---- layout groups (C20): the runs of a group are one test printed in different layouts, run against the same
+\* driver.  On the log alone: every variant loads like the first one and yields the same items - inputs with their
+\* flags, expected values - and each row's line differs from where the printer put it by the same amount as in the
+\* first variant (so the line shifts by exactly the lines inserted above the row).  The first variant's items are
+\* kept in a TLC register between runs (trace validation runs on one worker).
+GroupView(d) == [n \in DOMAIN d |-> IF d[n].k = "row" THEN [k |-> "row", off |-> d[n].off, inputs |-> d[n].inputs, exp |-> d[n].exp]
+                                     ELSE [k |-> "other", off |-> 0, inputs |-> <<>>, exp |-> <<>>]]
+EndLine(r) ==
+  IF r.group = 0 THEN Quiet
+  ELSE LET mine == IF 1 \in DOMAIN its THEN GroupView(its[1].dyn) ELSE <<>>
+           first == TLCGet(42)
+       IN  IF first.group # r.group
+           THEN TLCSet(42, [group |-> r.group, load |-> r.load, items |-> mine, whole |-> ~skip]) /\ Quiet
+           ELSE IF first.load # r.load THEN Flag("layout.verdict")
+           ELSE LET n == IF Len(mine) < Len(first.items) THEN Len(mine) ELSE Len(first.items)
+                IN  IF SubSeq(mine, 1, n) # SubSeq(first.items, 1, n) THEN Flag("layout.rows")
+                    \* both runs were followed to their end: then they must be equally long, too
+                    ELSE IF first.whole /\ ~skip /\ Len(mine) # Len(first.items) THEN Flag("layout.rows")
+                    ELSE Quiet
+
 Step ==
   /\ l <= Len(Rec)
   /\ l' = l + 1
   /\ LET r == Rec[l]
      IN  IF r.ev = "begin" THEN Begin(r)
-         ELSE IF r.ev = "end" \/ skip THEN Quiet
+         ELSE IF r.ev = "end" THEN EndLine(r)
+         \* C15, differential, computed by the harness from two real runs: the first iterator's items while the others were
+         \* stepped in between = its items when it runs alone against the same answers
+         ELSE IF r.ev = "solo" THEN (IF r.same THEN Quiet ELSE Flag("sched.differ"))
+         ELSE IF skip THEN Quiet
          ELSE IF r.ev = "try_iter" THEN TryIterLine(r)
          ELSE IF r.ev = "next" THEN
                 IF r.it \in DOMAIN its /\ its[r.it].live THEN NextLine(r)
